@@ -84,3 +84,42 @@ pub fn value_eq(a: &Value, b: &Value) -> bool {
 pub fn catch<T>(f: impl FnOnce() -> T) -> Result<T, ()> {
     std::panic::catch_unwind(std::panic::AssertUnwindSafe(f)).map_err(|_| ())
 }
+
+// ---------------------------------------------------------------------------------------------
+// watchdog: a case that does not finish within the cap is reported (hang.txt) and the process exits 3
+
+use std::sync::Mutex;
+use std::sync::atomic::{AtomicU64, Ordering};
+
+static CURRENT: Mutex<String> = Mutex::new(String::new());
+static STARTED_MS: AtomicU64 = AtomicU64::new(0);
+
+fn now_ms() -> u64 {
+    std::time::SystemTime::now().duration_since(std::time::UNIX_EPOCH).unwrap().as_millis() as u64
+}
+
+pub fn watchdog(dir: &str, cap_ms: u64) {
+    let dir = dir.to_string();
+    std::thread::spawn(move || loop {
+        std::thread::sleep(std::time::Duration::from_millis(200));
+        let st = STARTED_MS.load(Ordering::SeqCst);
+        if st != 0 && now_ms() - st > cap_ms {
+            let case = CURRENT.lock().map(|g| g.clone()).unwrap_or_default();
+            let j = serde_json::json!({"class": "hang", "what": format!("case did not finish within {cap_ms} ms"), "case": case});
+            let _ = std::fs::write(std::path::Path::new(&dir).join("hang.txt"), j.to_string());
+            std::process::exit(3);
+        }
+    });
+}
+
+pub fn begin_case(case: &str) {
+    if let Ok(mut g) = CURRENT.lock() {
+        g.clear();
+        g.push_str(case);
+    }
+    STARTED_MS.store(now_ms(), Ordering::SeqCst);
+}
+
+pub fn end_case() {
+    STARTED_MS.store(0, Ordering::SeqCst);
+}
